@@ -6,7 +6,8 @@ Tree == {
   A("M:pk.sub", "mod", "M:pk.sub.mod", "module"),
   A("M:pk", "sib", "M:pk.sib", "module"), A("M:pk.sib", "mod", "M:pk.sib.mod", "module"), A("M:pk.sib.mod", "fn", "fn6", "fn"),   \* a sibling with the same leaf name
   A("M:pk.mod", "fn", "fn", "fn"), A("M:pk.mod", "Cls", "Cls", "cls"), A("Cls", "meth", "meth", "method"), A("Cls", "Inner", "Inner", "cls"),
-  A("Inner", "im", "im", "method"),                          \* a method of a nested class
+  A("Inner", "im", "im", "method"),
+  A("M:pk.mod", "traced_fn", "tfn", "fn"),                   \* another object: a functools.wraps decorator around fn                          \* a method of a nested class
   A("M:pk.sub.mod", "fn", "fn5", "fn"),
   A("M:pk.alias", "fn", "fn", "fn") }                         \* the same function object under a second module path
 Mods == (<<"pk">> :> "M:pk") @@ (<<"pk","mod">> :> "M:pk.mod") @@ (<<"pk","sub">> :> "M:pk.sub")
@@ -28,6 +29,7 @@ Tpl == {
   Bnd(<<"pk","mod","fn">>, "x", "1"), Bnd(<<"m","fn">>, "x", "2"), Bnd(<<"mod","fn">>, "x", "3"), Bnd(<<"al","fn">>, "y", "4"),
   Bnd(<<"pk","mod","Cls">>, "x", "1"), Bnd(<<"pk","mod","Cls","meth">>, "x", "2"), Bnd(<<"mod","Cls","Inner">>, "x", "3"),
   Bnd(<<"pk","sub","mod","fn">>, "x", "5"), Bnd(<<"zz","fn">>, "x", "1"), Bnd(<<"pk","mod","nope">>, "x", "1"),
+  Bnd(<<"pk","mod","traced_fn">>, "x", "9"),
   BndRef(<<"pk","mod","fn">>, "y", <<"pk","mod","Cls">>), BndRef(<<"m","fn">>, "y", <<"m","Cls">>),
   BndRef(<<"pk","mod","fn">>, "y", <<"zz","fn">>), Bnd(<<"pk","sub","mod","nope">>, "x", "1"),
   \* scoped bindings and scoped references; a nested class, its method, a reference to it
@@ -37,7 +39,7 @@ Tpl == {
 \* the sibling family: plain imports of modules that share package prefixes and leaf names, every order
 TplSib == { Imp("plain", <<"pk","sub","mod">>, ""), Imp("plain", <<"pk","sib","mod">>, ""), Imp("plain", <<"pk","mod">>, ""),
   Bnd(<<"pk","sub","mod","fn">>, "x", "5"), Bnd(<<"pk","sib","mod","fn">>, "x", "6"), Bnd(<<"pk","mod","fn">>, "x", "1"),
-  Bnd(<<"pk","mod","Cls","meth">>, "x", "2") }
+  Bnd(<<"pk","mod","Cls","meth">>, "x", "2"), Bnd(<<"pk","mod","traced_fn">>, "x", "9") }
 \* the method family: references (plain, scoped, to a nested class) made before / after methods of the class are configured
 TplMeth == { Imp("plain", <<"pk","mod">>, ""),
   BndRef(<<"pk","mod","fn">>, "y", <<"pk","mod","Cls">>), BndRefS(<<"pk","mod","fn">>, "y", <<"pk","mod","Cls">>, "sc"),
@@ -46,7 +48,9 @@ TplMeth == { Imp("plain", <<"pk","mod">>, ""),
   Bnd(<<"pk","mod","Cls","Inner">>, "x", "3"), Bnd(<<"pk","mod","Cls","Inner","im">>, "x", "4") }
 \* the re-binding family: one name bound by two import statements of one file to different modules (the later wins)
 TplRebind == { Imp("from", <<"pk","mod">>, ""), Imp("from", <<"pk","sub","mod">>, ""), Imp("as", <<"pk","mod">>, "m"), Imp("as", <<"pk","sub","mod">>, "m"),
-  Bnd(<<"mod","fn">>, "x", "3"), Bnd(<<"m","fn">>, "x", "2") }
+  Bnd(<<"mod","fn">>, "x", "3"), Bnd(<<"m","fn">>, "x", "2"),
+  \* an alias equal to the name the plain form would bind: `import pk.mod as pk` makes pk the module, not the package
+  Imp("as", <<"pk","mod">>, "pk"), Bnd(<<"pk","fn">>, "x", "8"), Imp("plain", <<"pk","mod">>, "") }
 SkipFalseOnly == { [mode |-> "false", names |-> {}] }
 NoPrev == { <<>> }
 \* earlier files: one that registered fn through pk.mod, one that registered pk.sub.mod's fn through a from-import
